@@ -84,6 +84,18 @@ theorem get_le_gcSum (k : GcKey) (gc : List (GcKey × Nat)) (c : Nat) (hw : (SMa
   simp at this
   omega
 
+/-- no `GCounter++` on this database wraps: every gc entry is below `2^64 − 1` (the Go counter is a uint64;
+`setGC` / `setUnpin` write `(c + 1) % 2^64`) -/
+def NoWrap (db : Db) : Prop := ∀ (k : GcKey) (c : Nat), SMap.get k db.gc = some c → c + 1 < two64
+
+/-- under the accounting invariant a wrapping increment is impossible as long as `gcSize + 1` fits a uint64
+(the clause the guards of the single-address calls carry anyway): every counter is at most Σ = gcSize -/
+theorem noWrap_of_inv (db : Db) (hw : (SMap.keys db.gc).Nodup) (hinv : db.gcSize = gcSum db.gc)
+    (hfit : db.gcSize + 1 < two64) : NoWrap db := by
+  intro k c h
+  have := get_le_gcSum k db.gc c hw h
+  omega
+
 /-! ## the root part of the per-address steps, by cases of what the database holds for the root -/
 
 /-- how `setPinRoot` / the root part of `setRemove` will act -/
@@ -109,8 +121,11 @@ def rootCase (db : Db) (root : Option Addr) : RootCase :=
         | none => .noEntry
         | some c => if c = 1 then .del else .dec c
 
-/-- `setGC` under a root context on a clean batch: Σ and the pending change both grow by one -/
-theorem setGC_acc (d0 : Db) (tx : Tx) (root : Option Addr) (b : Nat) (hw : GcWF d0) (ha : Acc d0 tx) (hc : Clean tx) :
+/-- `setGC` under a root context on a clean batch: Σ and the pending change both grow by one — provided the
+uint64 increment of the root's counter does not wrap (`NoWrap`; false otherwise, see
+`C13_inv_step_wrap_counterexample`) -/
+theorem setGC_acc (d0 : Db) (tx : Tx) (root : Option Addr) (b : Nat) (hw : GcWF d0) (ha : Acc d0 tx) (hc : Clean tx)
+    (hnw : NoWrap tx.db) :
     StepR tx (setGC tx root b) (fun t => Acc d0 t ∧ t.change ≤ tx.change + 1) := by
   have hwf := ha.gcWF hw
   have hs := ha.sum_db hc
@@ -132,8 +147,12 @@ theorem setGC_acc (d0 : Db) (tx : Tx) (root : Option Addr) (b : Nat) (hw : GcWF 
           exact ha.fsize
         · simp only [Tx.final, applyBatch_append, applyBatch_cons, applyBatch_nil, applyW, hcl.1]
           have := gcSum_put ⟨t, bin, r⟩
-            (match SMap.get (⟨t, bin, r⟩ : GcKey) tx.db.gc with | none => 1 | some c => c + 1) tx.db.gc hwf
-          cases hg : SMap.get (⟨t, bin, r⟩ : GcKey) tx.db.gc <;> simp only [hg] at this ⊢ <;> simp at this <;> omega
+            (match SMap.get (⟨t, bin, r⟩ : GcKey) tx.db.gc with | none => 1 | some c => (c + 1) % two64) tx.db.gc hwf
+          cases hg : SMap.get (⟨t, bin, r⟩ : GcKey) tx.db.gc with
+          | none => simp only [hg] at this ⊢; simp at this; omega
+          | some c =>
+            have hm := Nat.mod_eq_of_lt (hnw _ _ hg)
+            simp only [hg, hm] at this ⊢; simp at this; omega
     | none =>
       simp only []
       cases hbin : (if b = 0 then Option.map (fun x => x.binID) (SMap.get r tx.db.data) else some b) with
@@ -145,8 +164,12 @@ theorem setGC_acc (d0 : Db) (tx : Tx) (root : Option Addr) (b : Nat) (hw : GcWF 
           exact ha.fsize
         · simp only [Tx.final, applyBatch_append, applyBatch_cons, applyBatch_nil, applyW, hcl.1]
           have := gcSum_put ⟨tx.clock, bin, r⟩
-            (match SMap.get (⟨tx.clock, bin, r⟩ : GcKey) tx.db.gc with | none => 1 | some c => c + 1) tx.db.gc hwf
-          cases hg : SMap.get (⟨tx.clock, bin, r⟩ : GcKey) tx.db.gc <;> simp only [hg] at this ⊢ <;> simp at this <;> omega
+            (match SMap.get (⟨tx.clock, bin, r⟩ : GcKey) tx.db.gc with | none => 1 | some c => (c + 1) % two64) tx.db.gc hwf
+          cases hg : SMap.get (⟨tx.clock, bin, r⟩ : GcKey) tx.db.gc with
+          | none => simp only [hg] at this ⊢; simp at this; omega
+          | some c =>
+            have hm := Nat.mod_eq_of_lt (hnw _ _ hg)
+            simp only [hg, hm] at this ⊢; simp at this; omega
 
 theorem dec64_of_pos (c : Nat) (h : c ≥ 1) : dec64 c = c - 1 := by
   simp [dec64]; omega
@@ -294,8 +317,10 @@ theorem setPin_quiet (tx : Tx) (a : Addr) (root : Option Addr) (h : rootQuiet tx
 macro "neutral_tac" : tactic =>
   `(tactic| exact ⟨rfl, rfl, rfl, fun D => by simp [applyBatch_append, applyW]⟩)
 
-/-- `setUnpin`: Σ and the pending change grow together (by one when the chunk's last pin goes under a root context) -/
-theorem setUnpin_acc (d0 : Db) (tx : Tx) (a : Addr) (root : Option Addr) (hw : GcWF d0) (ha : Acc d0 tx) (hc : Clean tx) :
+/-- `setUnpin`: Σ and the pending change grow together (by one when the chunk's last pin goes under a root
+context), provided the root's counter does not wrap (`NoWrap`) -/
+theorem setUnpin_acc (d0 : Db) (tx : Tx) (a : Addr) (root : Option Addr) (hw : GcWF d0) (ha : Acc d0 tx) (hc : Clean tx)
+    (hnw : NoWrap tx.db) :
     StepR tx (setUnpin tx a root) (fun t => Acc d0 t ∧ t.change ≤ tx.change + 1) := by
   have hwf := ha.gcWF hw
   have hs := ha.sum_db hc
@@ -329,8 +354,12 @@ theorem setUnpin_acc (d0 : Db) (tx : Tx) (a : Addr) (root : Option Addr) (hw : G
               exact ha.fsize
             · simp only [Tx.final, applyBatch_append, applyBatch_cons, applyBatch_nil, applyW, hcl.1]
               have := gcSum_put ⟨t, rd.binID, r⟩
-                (match SMap.get (⟨t, rd.binID, r⟩ : GcKey) tx.db.gc with | none => 1 | some c => c + 1) tx.db.gc hwf
-              cases hg : SMap.get (⟨t, rd.binID, r⟩ : GcKey) tx.db.gc <;> simp only [hg] at this ⊢ <;> simp at this <;> omega
+                (match SMap.get (⟨t, rd.binID, r⟩ : GcKey) tx.db.gc with | none => 1 | some c => (c + 1) % two64) tx.db.gc hwf
+              cases hg : SMap.get (⟨t, rd.binID, r⟩ : GcKey) tx.db.gc with
+              | none => simp only [hg] at this ⊢; simp at this; omega
+              | some c =>
+                have hm := Nat.mod_eq_of_lt (hnw _ _ hg)
+                simp only [hg, hm] at this ⊢; simp at this; omega
         | none =>
           simp only []
           cases hd : SMap.get r tx.db.data with
@@ -342,8 +371,12 @@ theorem setUnpin_acc (d0 : Db) (tx : Tx) (a : Addr) (root : Option Addr) (hw : G
               exact ha.fsize
             · simp only [Tx.final, applyBatch_append, applyBatch_cons, applyBatch_nil, applyW, hcl.1]
               have := gcSum_put ⟨tx.clock, rd.binID, r⟩
-                (match SMap.get (⟨tx.clock, rd.binID, r⟩ : GcKey) tx.db.gc with | none => 1 | some c => c + 1) tx.db.gc hwf
-              cases hg : SMap.get (⟨tx.clock, rd.binID, r⟩ : GcKey) tx.db.gc <;> simp only [hg] at this ⊢ <;> simp at this <;> omega
+                (match SMap.get (⟨tx.clock, rd.binID, r⟩ : GcKey) tx.db.gc with | none => 1 | some c => (c + 1) % two64) tx.db.gc hwf
+              cases hg : SMap.get (⟨tx.clock, rd.binID, r⟩ : GcKey) tx.db.gc with
+              | none => simp only [hg] at this ⊢; simp at this; omega
+              | some c =>
+                have hm := Nat.mod_eq_of_lt (hnw _ _ hg)
+                simp only [hg, hm] at this ⊢; simp at this; omega
 
 /-- `setUnpin` without root context never touches the accounting -/
 theorem setUnpin_quiet (tx : Tx) (a : Addr) : StepR tx (setUnpin tx a none) (fun t => Neutral tx t) := by
@@ -764,7 +797,7 @@ theorem putStep_quiet (po : Addr → Nat) (mode : PutMode) (root : Option Addr) 
   · simp only [putStep, StepR2]
 
 theorem putStep_one (po : Addr → Nat) (mode : PutMode) (root : Option Addr) (d0 : Db) (tx : Tx) (a : Addr) (d : Bytes)
-    (hw : GcWF d0) (ha : Acc d0 tx) (hc : Clean tx) (h : putOne tx.db mode root = true) :
+    (hw : GcWF d0) (ha : Acc d0 tx) (hc : Clean tx) (hnw : NoWrap tx.db) (h : putOne tx.db mode root = true) :
     StepR2 tx (putStep po mode root tx a d) (fun t => Acc d0 t ∧ t.change ≤ tx.change + 1) := by
   cases mode
   · -- request
@@ -773,7 +806,7 @@ theorem putStep_one (po : Addr → Nat) (mode : PutMode) (root : Option Addr) (d
     · simp only [StepR2_ok]; exact ⟨ha, by omega⟩
     · have hn := storeNew_neutral po tx a d
       have h1 := setGC_acc d0 (storeNew po tx a d).2 root (if root = some a then (storeNew po tx a d).1 else 0)
-        hw (hn.acc ha) (hn.clean hc)
+        hw (hn.acc ha) (hn.clean hc) (by rw [hn.1]; exact hnw)
       have : (PutMode.request == PutMode.requestPin) = false := by decide
       simp only [this, Bool.false_eq_true, if_false]
       cases hr : setGC (storeNew po tx a d).2 root (if root = some a then (storeNew po tx a d).1 else 0) with
@@ -829,7 +862,8 @@ theorem put_inv (po : Addr → Nat) (s : State) (mode : PutMode) (root : Option 
       exact ⟨Acc.start s, by intro h; simp [Tx.start] at h⟩
     | [(a, d)], _ =>
       rw [putLoop_cons_new _ _ _ _ _ _ _ _ _ (by simp)]
-      have h1 := putStep_one po mode root s.db (Tx.start s) a d hw (Acc.start s) (Clean.start s) hone
+      have h1 := putStep_one po mode root s.db (Tx.start s) a d hw (Acc.start s) (Clean.start s)
+        (noWrap_of_inv s.db hw hinv hfit) hone
       cases hr : putStep po mode root (Tx.start s) a d with
       | error e => obtain ⟨e1, t⟩ := e; rw [hr] at h1; exact h1
       | ok r =>
@@ -886,7 +920,7 @@ theorem setStep_quiet (mode : SetMode) (root : Option Addr) (tx : Tx) (a : Addr)
   · simp [setStep]
 
 theorem setStep_one (mode : SetMode) (root : Option Addr) (d0 : Db) (tx : Tx) (a : Addr)
-    (hw : GcWF d0) (ha : Acc d0 tx) (hc : Clean tx) (h : setOne tx.db mode root = true) :
+    (hw : GcWF d0) (ha : Acc d0 tx) (hc : Clean tx) (hnw : NoWrap tx.db) (h : setOne tx.db mode root = true) :
     StepR tx (setStep mode root tx a) (fun t => Acc d0 t ∧ t.change ≤ tx.change + 1) := by
   cases mode
   · simp [setOne] at h
@@ -898,7 +932,7 @@ theorem setStep_one (mode : SetMode) (root : Option Addr) (d0 : Db) (tx : Tx) (a
     split
     · exact setPin_one d0 tx a root hw ha hc (by simpa [setOne] using h)
     · simp
-  · exact setUnpin_acc d0 tx a root hw ha hc
+  · exact setUnpin_acc d0 tx a root hw ha hc hnw
   · simp [setOne] at h
 
 /-- the guard of `Set` -/
@@ -932,7 +966,8 @@ theorem set_inv (s : State) (mode : SetMode) (root : Option Addr) (addrs : List 
       exact ⟨Acc.start s, by intro h; simp [Tx.start] at h⟩
     | [a], _ =>
       rw [setLoop_cons]
-      have h1 := setStep_one mode root s.db (Tx.start s) a hw (Acc.start s) (Clean.start s) hone
+      have h1 := setStep_one mode root s.db (Tx.start s) a hw (Acc.start s) (Clean.start s)
+        (noWrap_of_inv s.db hw hinv hfit) hone
       cases hr : setStep mode root (Tx.start s) a with
       | error e => obtain ⟨e1, t⟩ := e; rw [hr] at h1; exact h1
       | ok t =>
@@ -1265,6 +1300,11 @@ theorem hist_inv (po : Addr → Nat) (ops : List Op) : ∀ (s : State), GcWF s.d
     intro s hw hi hg
     simp only [guardH, Bool.and_eq_true] at hg
     exact ih (step po s op) (step_gcWF po s op hw) (step_inv po s op hw hi hg.1) hg.2
+
+theorem runH_gcWF (po : Addr → Nat) (ops : List Op) : ∀ (s : State), GcWF s.db → GcWF (runH po s ops).db := by
+  induction ops with
+  | nil => intro s hw; exact hw
+  | cons op ops ih => intro s hw; exact ih (step po s op) (step_gcWF po s op hw)
 
 theorem gcWF_init (cap : Nat) : GcWF (init cap).db := by
   have : GcWF ({} : Db) := by simp [GcWF, SMap.keys]
